@@ -377,8 +377,27 @@ def _convex_subset(rng, spec):
     if len(names) < 2:
         return None
     k = rng.randint(1, max(1, min(4, len(names) - 1)))
-    seed = set(rng.sample(names, k))
-    closed = seed | (ref.descendants(spec, seed) & ref.ancestors(spec, seed))
+    closed = set(rng.sample(names, k))
+    # gates stay with their targets, waiters with the producers of what they wait for,
+    # producers of one name stay together (all of these relations are per level)
+    partner: dict[str, set[str]] = {}
+    for a, b, kind in ref.spec_edges(spec):
+        if kind in ("control", "ordering"):
+            partner.setdefault(a, set()).add(b)
+            partner.setdefault(b, set()).add(a)
+    for nm, lst in ref.producers(spec).items():
+        if len(lst) > 1:
+            grp = {ref.node_name(x) for x in lst}
+            for x in grp:
+                partner.setdefault(x, set()).update(grp - {x})
+    while True:
+        new = set(closed)
+        for x in closed:
+            new |= partner.get(x, set())
+        new |= ref.descendants(spec, new) & ref.ancestors(spec, new)
+        if new == closed:
+            break
+        closed = new
     if len(closed) >= len(names):
         return None
     return closed
